@@ -92,3 +92,18 @@ Example C05_examples :
   value_of "9223372036854775807 + 1" = Some (Err None) /\ value_of "high(0x1234)" = Some (Ok 18) /\
   value_of "1 < 2 == 1" = Some (Ok 1) /\ value_of "6 & 3 ^ 1 | 8" = Some (Ok 11).
 Proof. vm_compute. repeat split; reflexivity. Qed.
+
+(** An operand of an instruction that is a negated NAME beginning with x, y or z (-yval, -Zero) is that expression -
+    the pre-decrement form of an index register is the register letter on its own (-Y), not the first letter of a name.
+    (The code read the first letter as the register and then failed on the rest of the name; repaired, see
+    known_findings.json.) *)
+Require Import AvraV.Model.Lines AvraV.Proofs.MacroProofs.
+Theorem C05_negated_name_operand : forall x c rest e rest', is_idch c = true ->
+  expr_rule ("-"%char :: x :: c :: rest) = Some (e, rest') ->
+  instruction_op ("-"%char :: x :: c :: rest) = Some (OE e, rest').
+Proof. exact negated_name_operand. Qed.
+Print Assumptions C05_negated_name_operand.
+Example C05_negated_name_example :
+  instruction_op (list_ascii_of_string "-yval") = Some (OE (EUn UMinus (EIdent (list_ascii_of_string "yval"))), []) /\
+  instruction_op (list_ascii_of_string "-y") = Some (OIndex (IPreDec RY), []).
+Proof. split; vm_compute; reflexivity. Qed.
